@@ -82,15 +82,25 @@ ProbeClause(e) ==
      (IF ~e.result THEN <<"C08.TxAck", "send() to a listening peer failed right after open_tx_pipe()">> ELSE <<"ok", "">>)
   ELSE <<"ok", "">>
 
+\* a new driver object on a radio that was not power-cycled (Rf24Api!Constructed)
+ConstructClause(e) ==
+  LET pre == St(PreOf(e))  post == St(e.post) IN
+  IF e.exc # "none" THEN <<"C03.Encoding", "constructing a driver object on a running radio raised " \o e.exc>>
+  ELSE IF Differs(Constructed(pre), post) = {} THEN <<"ok", "">>
+  ELSE <<"C03.Encoding", "a driver object constructed on a running radio left " \o ToString(Differs(Constructed(pre), post))
+                         \o " off the documented defaults">>
+
 Roots == {F.roots[k] : k \in 1..Len(F.roots)}
 Judge(e, uu) == IF e.k = "reenter" THEN ReenterClause(e)
+                ELSE IF e.k = "construct" THEN ConstructClause(e)
                 ELSE IF e.k \in {"probe_rx", "probe_tx"} THEN ProbeClause(e) ELSE CallClause(e)
 TInit == node = 0 /\ verdict = <<"ok", "">> /\ u = NoIntent
 Step == /\ \E k \in (IF node = 0 THEN Roots ELSE {F.kids[node][j] : j \in 1..Len(F.kids[node])}) :
              LET e == N[k] IN
              /\ node' = k
              /\ verdict' = Judge(e, u)
-             /\ u' = IF e.k = "call" THEN Intent(St(PreOf(e)), u, e.call, e.exc) ELSE u
+             /\ u' = IF e.k = "call" THEN Intent(St(PreOf(e)), u, e.call, e.exc)
+                     ELSE IF e.k = "construct" THEN NoIntent ELSE u
 TSpec == TInit /\ [][Step]_tvars
 Report == verdict[1] # "ok" => PrintT("VERDICT " \o ToString(<<node, 0, verdict[1], verdict[2]>>))
 =============================================================================
